@@ -252,6 +252,13 @@ func main() {
 	// ---------- native confirmation ----------
 	replayDir := filepath.Join(verifDir, "replays", *prop)
 	os.MkdirAll(replayDir, 0o755)
+	if *only == "" {
+		if old, _ := filepath.Glob(filepath.Join(replayDir, "*.json")); old != nil {
+			for _, f := range old {
+				os.Remove(f)
+			}
+		}
+	}
 	type pending struct {
 		file   string
 		h      *hres
